@@ -205,4 +205,67 @@ theorem ofInt_exact (F : Fmt) (ok : Fmt.Ok F) (x : Int) (hx : x.natAbs < 2 ^ F.p
       rw [this, Nat.shiftRight_eq_div_pow, Nat.mul_div_cancel _ hP]
       by_cases hneg : x < 0 <;> simp [hneg] <;> omega
 
+theorem roundShift_cases (m k : Nat) :
+    roundShift m k false = (if (decide (2 ^ (k - 1) < m % 2 ^ k) || (m % 2 ^ k == 2 ^ (k - 1) && (m / 2 ^ k) % 2 == 1)) = true then m / 2 ^ k + 1 else m / 2 ^ k) := by
+  unfold roundShift; simp only [Nat.shiftRight_eq_div_pow, Bool.false_or]
+
+/-- the rounding step is round-to-nearest, ties-to-even: the result is within half a unit (`2^k / 2`) of `m / 2^k`,
+    and on an exact tie it is even -/
+theorem roundShift_nearest_even (m k : Nat) (hk : 0 < k) :
+    2 * ((m : Int) - (roundShift m k false : Int) * 2 ^ k).natAbs ≤ 2 ^ k ∧
+      (2 * ((m : Int) - (roundShift m k false : Int) * 2 ^ k).natAbs = 2 ^ k → roundShift m k false % 2 = 0) := by
+  have hP : 2 ^ k = 2 * 2 ^ (k - 1) := by
+    have : k = (k - 1) + 1 := by omega
+    rw [this, Nat.pow_succ]; simp; omega
+  have hh : 0 < 2 ^ (k - 1) := Nat.pow_pos (by decide)
+  have hdm : 2 ^ k * (m / 2 ^ k) + m % 2 ^ k = m := Nat.div_add_mod m (2 ^ k)
+  have hr : m % 2 ^ k < 2 ^ k := Nat.mod_lt _ (Nat.pow_pos (by decide))
+  have hq' := roundShift_cases m k
+  generalize roundShift m k false = q' at *
+  generalize hqe : m / 2 ^ k = q at *
+  generalize hre : m % 2 ^ k = r at *
+  generalize hhe : 2 ^ (k - 1) = h at *
+  have hPi : ((2 : Int) ^ k) = 2 * (h : Int) := by
+    have := congrArg (fun n : Nat => (n : Int)) hP
+    simpa [Int.natCast_pow] using this
+  rw [hP] at hdm hr ⊢
+  rw [hPi]
+  -- t = h * q as an atom
+  generalize hte : h * q = t at *
+  have hm : (m : Int) = 2 * (t : Int) + (r : Int) := by
+    have h0 : 2 * h * q = 2 * t := by rw [Nat.mul_assoc, hte]
+    rw [h0] at hdm
+    omega
+  have hmul (x : Nat) (hx : x = q ∨ x = q + 1) : (x : Int) * (2 * (h : Int)) = if x = q then 2 * (t : Int) else 2 * (t : Int) + 2 * (h : Int) := by
+    have ht : ((h * q : Nat) : Int) = (t : Int) := by rw [hte]
+    rw [Int.natCast_mul] at ht
+    rcases hx with hx | hx
+    · subst hx; simp only [if_true]
+      rw [Int.mul_comm, Int.mul_assoc, ht]
+    · subst hx
+      have : ¬ (q + 1 = q) := by omega
+      simp only [this, if_false, Int.natCast_add, Int.natCast_one, Int.add_mul, Int.one_mul]
+      rw [Int.mul_comm (q : Int), Int.mul_assoc, ht]
+  by_cases h1 : h < r
+  · have hq : q' = q + 1 := by simp [hq', h1]
+    have := hmul q' (Or.inr hq)
+    have hne : ¬ (q' = q) := by omega
+    simp only [hne, if_false] at this
+    rw [this]; omega
+  · by_cases h2 : r = h
+    · by_cases h3 : q % 2 = 1
+      · have hq : q' = q + 1 := by simp [hq', h2, h3]
+        have := hmul q' (Or.inr hq)
+        have hne : ¬ (q' = q) := by omega
+        simp only [hne, if_false] at this
+        rw [this]; omega
+      · have hq : q' = q := by simp [hq', h2, h3]
+        have := hmul q' (Or.inl hq)
+        simp only [hq, if_true] at this
+        rw [hq, this]; omega
+    · have hq : q' = q := by simp [hq', h1, h2]
+      have := hmul q' (Or.inl hq)
+      simp only [hq, if_true] at this
+      rw [hq, this]; omega
+
 end LlgoVerif.FloatLaws
